@@ -136,8 +136,10 @@ PLANS = {
                 "plain executor x 6 channel kinds, 1-3 listeners, optionally one listener dropped unconsumed beforehand), concurrency limit 1-4, 0-48 events whose per-event behaviour is drawn from {sync, ready future, "
                 "future with 1-3 yields, future sleeping, failing}; after the sends close(Duration::ZERO) is awaited and the closing task itself snapshots: every accepted event finished by every entitled stream, "
                 "running_streams_count == 0, channel not open; distinct = distinct (behaviour sequence, config); non-trivial = at least one event",
-                [dict(flavor="fast", lane="free", secs=20)], [dict(flavor="fast", lane="free", secs=240), dict(flavor="checked", lane="free", secs=100)], 1000, 10000,
-                ["tokio, futures: black boxes", "a run that does not finish within the 60 s wall-clock watchdog is inconclusive, never a verdict"]),
+                [dict(flavor="fast", lane="free", secs=20), dict(flavor="asan", lane="free", secs=12, shards=8)],
+                [dict(flavor="fast", lane="free", secs=240), dict(flavor="checked", lane="free", secs=100), dict(flavor="asan", lane="free", secs=120)], 1000, 10000,
+                ["tokio, futures: black boxes", "a run that does not finish within the 60 s wall-clock watchdog is inconclusive, never a verdict",
+                 "a process crash or AddressSanitizer report while pipelines are being closed is a violation (close() neither returned nor left the promised state)"]),
     "C11": plan("one evaluation = one item script (0-32, thorough 0-64 items over {ok, error, slow, slow-then-error}) pushed through one of the five StreamExecutor::spawn_* functions, with / without a futures timeout, "
                 "6 instrument settings, concurrency limit 1-8, on a paused-time current-thread runtime (slow = 10x the timeout in virtual time) or a multi-thread runtime (slow = never completes; ok/error ready at first "
                 "poll); oracles at the close callback: ok + timed_out + failed == items and each counter == the ledger's count (metrics on), error callback exactly once per failed item, every item processed, slow items "
@@ -218,7 +220,7 @@ META = {
     "C10": meta("seqmodel", "runtime monitoring: reference-model monitor over listener life-cycle histories (exhaustive for small MAX_STREAMS, random long histories so that every stream id is recycled many times)",
                 "Exhaustive enumeration of short listener life-cycle histories plus randomised long ones, each compared step by step with an exact sequential model.",
                 "DESIGN.md section 2, C10"),
-    "C06": meta("tokio", "runtime monitoring: per-item started/finished ledger written by the pipeline itself, snapshot taken by the closing task right after close() returns (completion is monotone), on deterministic virtual-time and on multi-thread tokio runtimes",
+    "C06": meta("tokio+asan", "runtime monitoring: per-item started/finished ledger written by the pipeline itself, snapshot taken by the closing task right after close() returns (completion is monotone), on deterministic virtual-time and on multi-thread tokio runtimes; the same pipelines in an AddressSanitizer build (real tokio wakers racing the close path)",
                 "Randomised exploration of workloads x executor kinds x concurrency limits x runtimes with a monotone-completion oracle.",
                 "DESIGN.md section 2, C06"),
     "C11": meta("tokio", "runtime monitoring: per-item outcome ledger + in-flight gauge inside the item futures, compared with the executor's counters and error-callback invocations at the close callback",
@@ -229,5 +231,5 @@ META = {
                 "DESIGN.md section 2, C12"),
 }
 
-for _p in ("C05", "C13", "C14"):
+for _p in ("C05", "C06", "C13", "C14"):
     crash_matters(PLANS[_p])
